@@ -80,6 +80,15 @@ CleanNamed(sel, pts, now) ==
   /\ \A i, j \in 1..Len(pts) : i # j =>
         ClassOf(cfg, sel, AlignW(StepOf(cfg, sel), pts[i].t)) # ClassOf(cfg, sel, AlignW(StepOf(cfg, sel), pts[j].t))
 
+\* points of a by-name batch that are alone in their ring slot (no other point of the batch - whatever its age - maps to
+\* the same slot), inside the archive's retention and not in the future: whatever else the batch contains (duplicates in
+\* other intervals, stale points, more points than the ring has slots), afterwards the slot holds exactly that point
+AloneIn(sel, pts, now) ==
+  {i \in 1..Len(pts) :
+     /\ pts[i].t <= now /\ pts[i].t > now - RetOf(cfg, sel)
+     /\ \A j \in 1..Len(pts) : j # i =>
+           ClassOf(cfg, sel, AlignW(StepOf(cfg, sel), pts[j].t)) # ClassOf(cfg, sel, AlignW(StepOf(cfg, sel), pts[i].t))}
+
 RECURSIVE ApplyNamed(_, _, _)
 ApplyNamed(o, a, pts) ==
   IF pts = <<>> THEN o
@@ -90,6 +99,9 @@ WriteStep(name, sel, pts, now, expected, post) ==
   LET obs == Full(cfg, post)
       spec == expected.ring
   IN /\ P("C01") /\ CleanNamed(sel, pts, now) => Content(obs[sel]) = Content(spec[sel])
+     /\ P("C01") /\ sel # 0 =>
+          \A i \in AloneIn(sel, pts, now) :
+             \E k \in 1..NOf(cfg, sel) : obs[sel][k] = [t |-> AlignW(StepOf(cfg, sel), pts[i].t), v |-> pts[i].v]
      /\ P("C02") /\ sel # 0 => \A b \in (sel + 1)..K(cfg) : Content(obs[b]) = Content(spec[b])
      /\ P("C03") => LET a == IF sel = 0 THEN 1 ELSE sel IN Content(obs[a]) = Content(spec[a])
      /\ ring' = obs
